@@ -436,6 +436,17 @@ func invalidSteps(v *tbin.Val, s *tbin.Shape, buf []byte) (abs []tutil.PE, absTr
 			}
 		}
 		add(tutil.PE{K: 'b', B: []byte{0xde, 0xad}}, "binkey")
+		add(tutil.PE{K: 'b', B: []byte{}}, "binkey-empty")
+		if len(v.K) > 0 {
+			// raw keys that are a proper prefix / a one-byte extension of a present key's encoding (a truncated or
+			// narrower-width key must not match by prefix)
+			kb := tbin.Bytes(tbin.Clone(v.K[0])) // Encode records spans in the value: work on a copy
+			if len(kb) > 1 {
+				add(tutil.PE{K: 'b', B: append([]byte{}, kb[:len(kb)-1]...)}, "binkey-prefix")
+				add(tutil.PE{K: 'b', B: append([]byte{}, kb[:len(kb)/2]...)}, "binkey-prefix")
+			}
+			add(tutil.PE{K: 'b', B: append(append([]byte{}, kb...), 0)}, "binkey-extension")
+		}
 	}
 	// wrong kinds
 	if v.T != tbin.STRUCT {
